@@ -78,6 +78,13 @@ def run(M, rep, tier, only=None):
     R5 = rep.rule("C05.R5", "linked dimensions read and write through the link under the linked object's own keys", floor=8,
                   technique="guard / returned-term correspondence on all abstract paths; storage-key agreement")
 
+    R6 = rep.rule("C05.R6", "link roles are resolved on every access (no remembered link targets)", floor=5,
+                  technique="stateless-handle classification (see C02.R7)")
+    from . import stateless
+    stateless.run(M, rep, R6, only_classes={"MultiTag", "Tag", "BaseTag", "Group", "Feature", "Dimension", "RangeDimension",
+                                             "SetDimension", "SampledDimension", "DimensionLink", "DataArray", "LinkContainer",
+                                             "SourceLinkContainer"})
+
     # ------------------------------------------------------------------ R1a
     for cn, name, tb in (("LinkContainer", "append", "methods"), ("SourceLinkContainer", "append", "methods"),
                          ("Feature", "data", "setters")):
